@@ -30,7 +30,8 @@
                                                                  errs = - or item …;item …
     api = dial                arg = the client's version list   answer  ok M.m | err | err item … | panic
     `err item <op> <status> <reason> <msg>`: the rendering inputs of ResponseBatchItem.Err()
-    (EnumStr strings: registered name or 0x%08X; msg in hex or -).
+    (EnumStr strings: registered name or 0x%08X; msg in hex or -). An error whose text has several
+    lines (errors.Join of a refused batch response): `err join <l>;<l>…`, l = `item …` | `other`.
 
   resp.enumstr <op|status|reason> <value>   answer  the EnumStr string
   resp.registered <op>                      answer  yes | no
@@ -138,8 +139,18 @@ def renderEStr : EStr → String
   | .name c => nameOfCode c
   | .hex v => hex8 v
 
+def renderLine : ItemErr → String
+  | .item o s r m => "item " ++ renderEStr o ++ " " ++ renderEStr s ++ " " ++ renderEStr r ++ " " ++ renderMsg m
+  | _ => "other"
+
+/-- an error by the lines of its text: one line = `err item …` / `err`; several (errors.Join) =
+    `err join <line>;<line>…` with line = `item …` or `other`. -/
 def renderErr : Err → String
   | .item o s r m => "err item " ++ renderEStr o ++ " " ++ renderEStr s ++ " " ++ renderEStr r ++ " " ++ renderMsg m
+  | .joined ls =>
+    match ls.map renderLine with
+    | [l] => if l = "other" then "err" else "err " ++ l
+    | lines => "err join " ++ ";".intercalate lines
   | _ => "err"
 
 def renderItemErr : Err → String
